@@ -42,10 +42,12 @@ def rejection_ops(rng, L):
     fresh = lambda: rng.choice(free)
     ce = lambda kind, name: hist.comp_entry(rng, kind, name)
     out = []
-    out.append(("unknown.change", {"op": "change_comp", "name": "nope", "comp": ce("RLoss", fresh())}))
-    out.append(("unknown.del", {"op": "del_comp", "name": "nope", "del_childs": rng.random() < 0.5}))
-    out.append(("unknown.phases", {"op": "set_comp_phases", "name": "nope", "conf": ["a"]}))
-    out.append(("unknown.parent", {"op": "add_comp", "parent": "nope", "comp": ce("RLoss", fresh())}))
+    # the unknown name is a fixed string or a FREE pool name (one that a later, accepted call may well introduce)
+    unk = lambda: rng.choice(["nope", fresh(), fresh()])
+    out.append(("unknown.change", {"op": "change_comp", "name": unk(), "comp": ce("RLoss", fresh())}))
+    out.append(("unknown.del", {"op": "del_comp", "name": unk(), "del_childs": rng.random() < 0.5}))
+    out.append(("unknown.phases", {"op": "set_comp_phases", "name": unk(), "conf": ["a"]}))
+    out.append(("unknown.parent", {"op": "add_comp", "parent": unk(), "comp": ce("RLoss", fresh())}))
     if rails:
         r = rng.choice(rails)
         out.append(("railtarget.change", {"op": "change_comp", "name": r, "comp": ce("RLoss", fresh())}))
@@ -159,6 +161,7 @@ def run(ctx, case):
     history = []
     o2 = prev = None
     rejected_names = []
+    follow_up = []
     every = case.get("observe_every", 1)
     twin_dirty, burst = False, []
     with H.tmpdir() as d:
@@ -173,8 +176,13 @@ def run(ctx, case):
                     st_rng.shuffle(queue)
                 cls, op = queue.pop()
                 # the op was built for an earlier state; rebuild if its names went away
-                if any(isinstance(v, str) and v not in L["names"] and v not in L["rails"].values() and v != "nope"
-                       for v in [op.get("name")] if v is not None):
+                if cls.startswith("unknown."):
+                    tgt = op.get("name") if op["op"] != "add_comp" else op.get("parent")
+                    if tgt in L["names"] or tgt in L["rails"].values():
+                        queue = []  # the "unknown" name has come into use meanwhile
+                        continue
+                elif any(isinstance(v, str) and v not in L["names"] and v not in L["rails"].values() and v != "nope"
+                         for v in [op.get("name")] if v is not None):
                     queue = []
                     continue
             elif r < 0.6:
@@ -182,12 +190,17 @@ def run(ctx, case):
                 cls = "conf"
             else:
                 op = hist.random_op(rng, L)
-                if op["op"] == "add_comp" and rejected_names and rng.random() < 0.4:
+                if follow_up and follow_up[0] in L["names"] and L["kinds"][follow_up[0]] not in ("PLoad", "ILoad", "RLoad"):
+                    # right after a retried name came into use: a call that RESOLVES that name (as a parent)
+                    free_ = [n for n in hist.NAME_POOL + ["Y%d" % q for q in range(1, 40)] if n not in L["names"] and n not in L["rails"].values()]
+                    op = {"op": "add_comp", "parent": follow_up.pop(0), "comp": hist.comp_entry(rng, "ILoad", rng.choice(free_))}
+                elif op["op"] == "add_comp" and rejected_names and rng.random() < 0.4:
                     # a retry under a name / rail that an earlier REJECTED call wanted to use (it is still free)
                     nm = rng.choice(rejected_names)
                     if nm not in L["names"] and nm not in L["rails"].values():
                         if rng.random() < 0.5:
                             op["comp"]["name"] = nm
+                            follow_up[:] = [nm]
                         elif L["kinds"].get(op["parent"] if isinstance(op["parent"], str) else "", "") and op["comp"]["kind"] not in ("PLoad", "ILoad", "RLoad"):
                             op["rail"] = nm
             s1, e1 = hist.apply(subject, op, ns)
@@ -206,7 +219,7 @@ def run(ctx, case):
                 classes.add(cls)
                 ctx.count("rejected_class", cls)
                 ctx.count("rejected_exception", type(e1).__name__)
-                for nm in ((op.get("comp") or {}).get("name"), op.get("rail")):
+                for nm in ((op.get("comp") or {}).get("name"), op.get("rail"), op.get("name"), op.get("parent")):
                     if isinstance(nm, str) and nm and nm not in L["names"] and nm not in L["rails"].values() and nm != "nope":
                         rejected_names.append(nm)
                 # would a system that never saw the rejected calls have refused this call too?  (probed on a COPY of the
